@@ -176,6 +176,8 @@ structure ProtoFacts where
   undoAbortFirst : Bool     -- UndoBlockTxs: abortWriting before any map / header write
   commitLocked : Bool       -- abortWriting / commit are called with db.Mutex held in CommitBlockTxs
   undoLocked : Bool
+  purgeAbortFirst : Bool    -- PurgeUnspendable: abortWriting before any map write
+  purgeLocked : Bool        -- … called with db.Mutex held
   abortPubLocked : Bool     -- AbortWriting holds db.Mutex around abortWriting
   idleLocked : Bool         -- Idle holds db.Mutex around Save
   abortShape : Bool         -- abortWriting = check WIP; send token; Wait writingDone; non-blocking drain
@@ -198,6 +200,9 @@ def protoFacts : ProtoFacts where
   undoAbortFirst := precedesAll (.call N_abortWriting) (fun e => e == .wr N_db_HashMap || e == .wr N_db_LastBlockHash || e == .wr N_db_LastBlockHeight || e == .call N_del) undoBlockTxs
   commitLocked := callsHeld N_abortWriting N_db_Mutex commitBlockTxs && callsHeld N_commit N_db_Mutex commitBlockTxs
   undoLocked := callsHeld N_abortWriting N_db_Mutex undoBlockTxs
+  purgeAbortFirst := precedesAll (.call N_abortWriting) (fun e => e == .wr N_db_HashMap || e == .wr N_db_LastBlockHash || e == .wr N_db_LastBlockHeight) purgeUnspendable
+                       && purgeUnspendable.contains (.wr N_db_HashMap)
+  purgeLocked := callsHeld N_abortWriting N_db_Mutex purgeUnspendable
   abortPubLocked := skeleton abortWritingPub == [.lock N_db_Mutex, .call N_abortWriting, .unlock N_db_Mutex]
   idleLocked := callsHeld N_Save N_db_Mutex idle && (skeleton idle).contains (.call N_Save)
   abortShape := skeleton abortWriting == [.atomic N_db_WritingInProgress, .send N_db_abortwritingnow, .wgWait N_db_writingDone,
@@ -224,7 +229,7 @@ def protoFacts : ProtoFacts where
       && (serializeC.filter (fun e => e == .rd N_comp_val)).length ≥ 2   -- filled AND copied out under the lock
 
 def protoFactsOK : ProtoFacts :=
-  ⟨true, true, true, true, true, true, true, true, true, true, true, true, true, true, true, true⟩
+  ⟨true, true, true, true, true, true, true, true, true, true, true, true, true, true, true, true, true, true⟩
 
 /-! ## (c) the snapshot protocol -/
 namespace Snap
@@ -236,7 +241,10 @@ inductive APc | check | send | wait | drain | done
 inductive SaveRet | idle | direct | close
   deriving DecidableEq, Repr
 
-inductive MOp | commit | idle | abort | hurry | save | close
+/-- operations of the main goroutine.  `undo` (UnspentDB.UndoBlockTxs) and `purge` (UnspentDB.PurgeUnspendable) have the SAME
+    synchronisation shape as `commit` — db.Mutex, abortWriting, elementary map/header mutations, unlock (shape facts
+    undoAbortFirst/undoLocked/purgeAbortFirst/purgeLocked) — and run the same micro-steps. -/
+inductive MOp | commit | idle | abort | hurry | save | close | undo | purge
   deriving DecidableEq, Repr
 
 inductive MPc
@@ -332,6 +340,8 @@ def stepM (st : St) : Option St :=
       let st := { st with mprog := r }
       some (match op with
         | .commit => { st with mpc := .cLock }
+        | .undo => { st with mpc := .cLock }
+        | .purge => { st with mpc := .cLock }
         | .idle => { st with mpc := .iLock }
         | .abort => { st with mpc := .aLock }
         | .hurry => { st with hurryCh := true }
